@@ -233,10 +233,21 @@ def concurrent_stage(ctx):
         sys.settrace(purity._yield_in_library)
         try:
             for k in order:
-                results[(10 + t, k)] = repr([ri.wrapper_outcome(cases[k][1], 4096)[0]])
+                results[(10 + t, k)] = small_one(k)
         finally:
             sys.settrace(None)
-    alone_small = {k: repr([ri.wrapper_outcome(cases[k][1], 4096)[0]]) for k in small}
+
+    def small_one(k):
+        out = [ri.wrapper_outcome(cases[k][1], 4096)[0]]
+        for name in sorted(fi.ALL_FORMATS)[k % 5::5]:
+            try:
+                i = fi.ALL_FORMATS[name].from_file(paths[k])
+                out.append((name, 'from_file', insp.safe(lambda: bool(i.format_match)), insp.safe(lambda: i.virtual_size),
+                            insp.safety_outcome(i)))
+            except Exception as e:  # noqa
+                out.append((name, 'from_file', 'EXC:' + type(e).__name__))
+        return repr(out)
+    alone_small = {k: small_one(k) for k in small}
     try:
         ths = [threading.Thread(target=worker, args=(t,)) for t in range(4)]
         [t.start() for t in ths]
